@@ -17,7 +17,7 @@ import (
 
 type vhasher struct{}
 
-func (vhasher) Eqv(a, b int) bool  { return a == b }
+func (vhasher) Eqv(a, b int) bool { return a == b }
 func (vhasher) Hash(k int) uint32 { return uint32(zz.UFInt("h", k)) }
 
 var vh fp.Hashable[int] = vhasher{}
